@@ -47,6 +47,8 @@ struct RCtx {
     dec: Vec<Vec<u64>>,
     queries: Vec<Vec<u8>>,
     sinks: Vec<(usize, Box<RSink>)>,
+    /// writers handed back by a file callback that then DECLINED the file (decision 2): must never be used
+    ghosts: Vec<(usize, Box<RSink>)>,
 }
 
 extern "C" fn r_read(buf: *mut u8, len: u32, ctx: *mut c_void, nread: *mut u32) -> i32 {
@@ -115,6 +117,19 @@ extern "C" fn r_file(ctx: *mut c_void, name: *const u8, name_len: usize, fw: *mu
     x.queries.push(nm);
     let d = x.dec.get(i).cloned().unwrap_or_else(|| vec![0; 5]);
     let g = |k: usize| d.get(k).copied().unwrap_or(0);
+    if g(0) == 2 {
+        // declines AFTER filling the structure (a callback whose last step - an fopen, a path check - fails):
+        // the return code decides, the writer must receive nothing
+        let mut sink = Box::new(RSink { data: Vec::new(), ncalls: 0, wmode: 0, wfail: 0, flushes: 0 });
+        let p: *mut RSink = &mut *sink;
+        x.ghosts.push((i, sink));
+        unsafe {
+            (*fw).write_callback = Some(rs_write);
+            (*fw).flush_callback = Some(rs_flush);
+            (*fw).context = p as *mut c_void;
+        }
+        return 1;
+    }
     if g(0) != 0 {
         return 1;
     }
@@ -151,7 +166,7 @@ pub fn child_main() {
     let cfg = nums(&job["cfg"]);
     let c = |i: usize| cfg.get(i).copied().unwrap_or(0);
     let dec: Vec<Vec<u64>> = job["dec"].as_array().map(|a| a.iter().map(nums).collect()).unwrap_or_default();
-    let mut x = RCtx { src: archive, pos: 0, rmode: c(0), rfail: c(1), sfail: c(2), nreads: 0, nseeks: 0, dec, queries: Vec::new(), sinks: Vec::new() };
+    let mut x = RCtx { src: archive, pos: 0, rmode: c(0), rfail: c(1), sfail: c(2), nreads: 0, nseeks: 0, dec, queries: Vec::new(), sinks: Vec::new(), ghosts: Vec::new() };
     let xp = &mut x as *mut RCtx as *mut c_void;
     let out = if job["op"].as_str() == Some("info") {
         x.sfail = 0;
@@ -175,6 +190,7 @@ pub fn child_main() {
             "queries": x.queries.iter().map(hex::encode).collect::<Vec<_>>(),
             "sinks": x.sinks.iter().map(|(i, s)| json!([*i as u64, hex::encode(&s.data), s.ncalls])).collect::<Vec<_>>(),
             "nreads": x.nreads, "nseeks": x.nseeks,
+            "ghosts": x.ghosts.iter().map(|(i, s)| json!([*i as u64, s.data.len() as u64, s.ncalls + s.flushes])).collect::<Vec<_>>(),
             "flushes": x.sinks.iter().map(|(_, s)| s.flushes).sum::<u64>(),
             "fired": FIRED.with(|c| c.get()),
         })
@@ -211,6 +227,8 @@ struct Res {
     queries: Vec<Vec<u8>>,
     /// (query index, bytes received, number of write-callback invocations)
     sinks: Vec<(usize, Vec<u8>, u64)>,
+    /// (query index, bytes received, callback invocations) of writers handed back by a DECLINING file callback
+    ghosts: Vec<(usize, u64, u64)>,
     nreads: u64,
     nseeks: u64,
     flushes: u64,
@@ -257,6 +275,7 @@ fn run_job(job: &Job) -> Res {
     res.setup = nums(&v["setup"]);
     res.queries = v["queries"].as_array().map(|a| a.iter().map(hx).collect()).unwrap_or_default();
     res.sinks = v["sinks"].as_array().map(|a| a.iter().map(|s| (s[0].as_u64().unwrap_or(0) as usize, hx(&s[1]), s[2].as_u64().unwrap_or(0))).collect()).unwrap_or_default();
+    res.ghosts = v["ghosts"].as_array().map(|a| a.iter().map(|s| (s[0].as_u64().unwrap_or(0) as usize, s[1].as_u64().unwrap_or(0), s[2].as_u64().unwrap_or(0))).collect()).unwrap_or_default();
     res.nreads = v["nreads"].as_u64().unwrap_or(0);
     res.nseeks = v["nseeks"].as_u64().unwrap_or(0);
     res.flushes = v["flushes"].as_u64().unwrap_or(0);
@@ -421,6 +440,9 @@ fn extract_oracle(a: &Arch, job: &Job, res: &Res) -> Result<(), String> {
     }
     if res.fired {
         return if res.status != 0 { Ok(()) } else { Err("a read / seek / write callback reported a failure (5) during the call, and the call returned status 0".into()) };
+    }
+    if let Some((i, b, c)) = res.ghosts.iter().find(|g| g.1 != 0 || g.2 != 0) {
+        return Err(format!("query {i}: the file callback declined the file (non-zero return) after filling the writer structure, and that writer received {b} bytes in {c} callback invocations; a file not chosen receives nothing"));
     }
     let sorted = a.sorted();
     let names: Vec<Vec<u8>> = sorted.iter().map(|p| p.0.clone()).collect();
@@ -655,6 +677,14 @@ fn failure_sweeps(g: &mut Gen, a: &Arch, full: bool) {
 }
 
 pub fn c20r_cases(rng: &mut Rng, tier: &str, out: &mut Out) {
+    cases(rng, tier, out, false)
+}
+/// C12 through the C interface: family A only (successful extraction into the subset of files the file callback
+/// accepts; declined files - before or after the callback filled the writer structure - receive nothing)
+pub fn c12_capi_cases(rng: &mut Rng, tier: &str, out: &mut Out) {
+    cases(rng, tier, out, true)
+}
+fn cases(rng: &mut Rng, tier: &str, out: &mut Out, only_a: bool) {
     let thorough = tier == "thorough";
     let secret = sample_secret();
     let mut g = Gen { out, n: [0; 3] };
@@ -673,8 +703,9 @@ pub fn c20r_cases(rng: &mut Rng, tier: &str, out: &mut Out) {
                     // rmode 3: an EMPTY decision list (every query takes the default = accept, wmode 0)
                     ("accept-wmode0", if rmode == 3 { vec![] } else { accept_all(n, 0) }),
                     ("accept-wmode1", accept_all(n, 1)),
-                    ("decline-every-2nd", (0..n).map(|i| if i % 2 == 1 { vec![1, 0, 0, 0, 0] } else { vec![0, 0, 0, 0, 0] }).collect()),
-                    ("decline-first-wmode2", (0..n).map(|i| if i == 0 { vec![1, 0, 0, 0, 0] } else { vec![0, 0, 0, 2, 0] }).collect()),
+                    // decision 1 declines before touching the structure, decision 2 after filling it
+                    ("decline-every-2nd", (0..n).map(|i| if i % 2 == 1 { vec![1 + (i as u64 / 2) % 2, 0, 0, 0, 0] } else { vec![0, 0, 0, 0, 0] }).collect()),
+                    ("decline-first-filled-wmode2", (0..n).map(|i| if i == 0 { vec![2, 0, 0, 0, 0] } else { vec![0, 0, 0, 2, 0] }).collect()),
                 ];
                 for (vn, dec) in variants {
                     g.extract(0, &format!("l{layers}"), format!("extract ok layers={layers} rmode={rmode} dec={vn}"), &a, with_key, [rmode, 0, 0], dec, false);
@@ -684,6 +715,9 @@ pub fn c20r_cases(rng: &mut Rng, tier: &str, out: &mut Out) {
         }
     }
 
+    if only_a {
+        return;
+    }
     // ---------------- B: failure sweeps
     let nb = if thorough { 6 } else { 2 };
     for layers in [0u8, 1] {
